@@ -1,28 +1,37 @@
-"""C13 (partial) -- saved transforms and configurations reload unchanged.
+"""C13 (partial) -- saved sample sets, histories, transforms and configurations
+reload unchanged.
 
-What is decided: for the transform classes (CompositeTransform with every
-combination of periodic / logit / probit / affine parts, FlowTransform,
-AffineTransform) the object rebuilt by the real `load` from what the real `save`
-wrote reproduces the SAME MAP: for all bounds lower < upper, all fitted affine
-states and all points x, forward and inverse (value and log-Jacobian) of the
-reloaded transform equal those of the saved one, and its settings (parameters,
-periodic parameters, bounded-transform kind, clipping margin eps, precision,
-namespace) are the saved ones.  And an Aspire instance rebuilt by the real
-`Aspire.resume_from_file` from the configuration the real `save_config` wrote has
-the same settings, for all prior bounds.
+What is decided: the object rebuilt by the real `load` from what the real `save`
+wrote equals the saved one, for ALL values:
+* transforms (CompositeTransform with every combination of periodic / logit /
+  probit / affine parts, FlowTransform, AffineTransform): same settings, bounds
+  and fitted state, and the SAME MAP -- forward and inverse, value and
+  log-Jacobian, for all bounds lower < upper, all fitted affine states and all
+  points;
+* sample sets (BaseSamples / Samples / SMCSamples, flat and nested layout, with
+  and without the optional fields): every cell of every field, parameter names
+  (in a non-alphabetical order), namespace, precision, temperature, evidence;
+* SMC histories: every series in order, and every stored population (also with
+  twelve of them: HDF5 hands group names back sorted as strings);
+* an Aspire instance rebuilt by the real `Aspire.resume_from_file` from what
+  `save_config` wrote: same settings, for all prior bounds.
 
-How: the real save/load code (BaseTransform.save/load, _save_state/_load_state,
-config_dict, utils.recursively_save_to_h5_file, load_from_h5_file,
-encode_for_hdf5, decode_from_hdf5, encode_dtype/decode_dtype) runs against a
-hybrid container (sx/h5model.py): a REAL in-memory h5py file for everything
-concrete -- names, groups, attributes, strings, booleans, lists, iteration
-order, name collisions -- and a side table for array payloads that contain
-symbolic cells.  Bounds, fitted state and the evaluation points are symbolic.
+How: the real save/load code (save/load/_save_state/_load_state/config_dict of the
+transforms, BaseSamples.save/load/_encode_for_hdf5/_decode_from_dictionary/to_dict/
+from_dict, History/SMCHistory.save/load, utils.recursively_save_to_h5_file,
+load_from_h5_file, encode_for_hdf5, decode_from_hdf5, encode/decode_dtype,
+encode/decode_samples) runs against a hybrid container (sx/h5model.py): a REAL
+in-memory h5py file for everything concrete -- names, groups, attributes,
+strings, booleans, lists, iteration order, name collisions -- and a side table
+for array payloads that contain symbolic cells.
+
+Stubs: h5py returns a float array as stored; the sample classes' conversion to
+NumPy before saving is the identity on symbolic arrays (value preservation of
+that conversion is C15's matter).
 
 Outside (not decidable by this technique): what h5py / torch / equinox do to
-concrete array payloads (float width on disk, string encodings, neural-network
-weights), sample sets and histories (their save path converts to NumPy first,
-which realises symbolic arrays), flows."""
+concrete array payloads (float width on disk, string encodings), flows and
+neural-network weights."""
 
 from __future__ import annotations
 
@@ -36,6 +45,8 @@ from harness.util import env_array
 from sx import h5model
 
 EPS13 = 1e-3  # a non-default clipping margin: dropping it on save shows
+# not in alphabetical order: HDF5 hands names back sorted, the parameter order must survive
+PARAMS = ["zed", "alpha", "mid"]
 
 
 def _terms_equal(ctx, a, b, label, detail=None):
@@ -48,15 +59,16 @@ def _terms_equal(ctx, a, b, label, detail=None):
 
 class C13(Check):
     pid = "C13"
-    required_labels = ["c13/transform/settings", "c13/transform/bounds", "c13/transform/fitted_state", "c13/transform/same_forward", "c13/transform/same_inverse", "c13/config/settings", "c13/config/bounds"]
+    required_labels = ["c13/transform/settings", "c13/transform/bounds", "c13/transform/fitted_state", "c13/transform/same_forward", "c13/transform/same_inverse", "c13/config/settings", "c13/config/bounds", "c13/samples", "c13/history/series", "c13/history/populations"]
     stubs = [
         "HDF5 -> hybrid container: a real in-memory h5py file (core driver) for every concrete value, group, attribute and name; array payloads with symbolic cells are kept in a side table behind a zero placeholder of the same shape and float width (assumption: h5py returns a float array as it was stored)",
         "erf / erfinv, math constants, x % w as in C04",
         "Aspire route: utils.AspireFile -> the hybrid file; the proposal is the loop harness's FlowStub (its save writes a marker group)",
+        "sample classes: the conversion to NumPy that precedes saving (array_api_compat.numpy inside BaseSamples.to_numpy, samples.to_numpy) is the identity on symbolic arrays",
     ]
     outside = [
         "what h5py / torch / equinox do to concrete array payloads; neural-network weights of the flows",
-        "sample sets and histories: their save path converts to NumPy first, which realises symbolic arrays (C16 decides the dict and pickle round trips of the same classes)",
+        "flows and their network weights (torch / equinox serialisation)",
         "infinite prior bounds; torch / jax namespaces",
     ]
     bounds = {"quick": {"d": 2, "batch": 1}, "thorough": {"d": [2, 3], "batch": 2}}
@@ -73,6 +85,16 @@ class C13(Check):
             out.append({"name": f"transform-anywhere-{bnd}", "kind": "transform", "cls": "CompositeTransform", "periodic": False, "bounded": bnd, "affine": False, "d": 1, "batch": 1, "points": "anywhere", "timeout_ms": 60000})
             out.append({"name": f"flowtransform-{bnd}", "kind": "transform", "cls": "FlowTransform", "periodic": False, "bounded": bnd, "affine": True, "d": d, "batch": 1, "points": "inside", "timeout_ms": 60000})
         out.append({"name": "affine-alone", "kind": "affine", "d": d, "batch": 1})
+        # sample sets and histories (conversion to NumPy stubbed as the identity, see module doc)
+        for cls, subs in (("BaseSamples", ["all", "ll", "none"]), ("Samples", ["all", "none"]), ("SMCSamples", ["all", "none"])):
+            for sub in subs:
+                for flat in (False, True):
+                    if flat and sub != "all":
+                        continue
+                    out.append({"name": f"samples-{cls}-{sub}-{'flat' if flat else 'nested'}", "kind": "samples", "cls": cls, "subset": sub, "flat": flat, "N": 2, "d": 2})
+        for K in (2, 12):
+            out.append({"name": f"history-K{K}", "kind": "history", "K": K, "N": 1, "d": 2})
+        out.append({"name": "history-no-populations", "kind": "history", "K": 0, "N": 1, "d": 2})
         for per in (False, True):
             out.append({"name": f"aspire-config-{'per' if per else 'noper'}", "kind": "config", "periodic": per, "d": d})
         out.append({"name": "aspire-config-flow-options", "kind": "config", "periodic": False, "d": d, "flow_kwargs": {"seed": 7, "hidden_features": [8, 8]}})
@@ -96,7 +118,7 @@ class C13(Check):
         lo, hi = sx.sym("lo", d), sx.sym("hi", d)
         for a, b in zip(sx.terms(lo), sx.terms(hi)):
             ctx.add_assume(a < b)
-        params = [f"p{k}" for k in range(d)]
+        params = PARAMS[:d]
         kw = dict(
             parameters=params,
             prior_bounds={p: [lo[k], hi[k]] for k, p in enumerate(params)},
@@ -107,7 +129,7 @@ class C13(Check):
             dtype="float32",
         )
         if cfg["cls"] == "CompositeTransform":
-            kw.update(periodic_parameters=["p0"] if cfg["periodic"] else [], affine_transform=cfg["affine"])
+            kw.update(periodic_parameters=[PARAMS[0]] if cfg["periodic"] else [], affine_transform=cfg["affine"])
         return getattr(T, cfg["cls"])(**kw), lo, hi, params
 
     def h_transform(self, cfg):
@@ -215,6 +237,80 @@ class C13(Check):
         return h
 
     # ------------------------------------------------------------------
+    def h_samples(self, cfg):
+        import aspire.samples as S
+
+        N, d, sub, cls_name, flat = cfg["N"], cfg["d"], cfg["subset"], cfg["cls"], cfg["flat"]
+
+        def h(ctx):
+            with numpy_is_identity():
+                s, ev = make_samples(S, cls_name, sub, N, d, sx)
+                f = h5model.new_file()
+                try:
+                    try:
+                        s.save(f, "samples", flat=flat)
+                        s2 = getattr(S, cls_name).load(f, "samples")
+                    except (core.PathCut, core.Infeasible, core.Inconclusive, core.HarnessError):
+                        raise
+                    except Exception as e:  # noqa: BLE001
+                        ctx.prove(False, "c13/samples/roundtrip_raises", detail={"exception": repr(e)})
+                        return
+                finally:
+                    h5model.close_file(f)
+            compare_samples(ctx, s, s2, ev, "c13/samples")
+
+        return h
+
+    def h_history(self, cfg):
+        import aspire.history as Hm
+        import aspire.samples as S
+
+        K, N, d = cfg["K"], cfg["N"], cfg["d"]
+
+        def h(ctx):
+            with numpy_is_identity():
+                hist = Hm.SMCHistory()
+                series = ("log_norm_ratio", "log_norm_ratio_var", "beta", "ess", "ess_target", "eff_target", "mcmc_acceptance")
+                n_it = max(K - 1, 2)
+                vals = {}
+                for name in series:
+                    vals[name] = [sx.sym(f"{name}_{t}") for t in range(n_it)] if name != "beta" else [(t + 1) / n_it for t in range(n_it)]
+                    setattr(hist, name, list(vals[name]))
+                pops = []
+                for t in range(K):
+                    pops.append(S.SMCSamples(x=sx.sym(f"px{t}", (N, d)), log_likelihood=sx.sym(f"pl{t}", N), log_prior=sx.sym(f"pp{t}", N), log_q=sx.sym(f"pq{t}", N),
+                                             parameters=PARAMS[:d], xp=sx, beta=t / max(K - 1, 1), dtype="float32"))
+                hist.sample_history = list(pops)
+                f = h5model.new_file()
+                try:
+                    try:
+                        hist.save(f, "smc_history")
+                        h2 = Hm.SMCHistory.load(f, "smc_history")
+                    except (core.PathCut, core.Infeasible, core.Inconclusive, core.HarnessError):
+                        raise
+                    except Exception as e:  # noqa: BLE001
+                        ctx.prove(False, "c13/history/roundtrip_raises", detail={"exception": repr(e)})
+                        return
+                finally:
+                    h5model.close_file(f)
+            for name in series:
+                got = getattr(h2, name, None)
+                if not ctx.prove(got is not None and len(got) == len(vals[name]), "c13/history/series", detail={"series": name, "len": None if got is None else len(got), "saved": len(vals[name])}):
+                    continue
+                for t in range(len(vals[name])):
+                    a, b = vals[name][t], got[t]
+                    ta = sx.term(a) if isinstance(a, sx.Array) else core.rv(float(a))
+                    tb = sx.term(sx.asarray(b)) if isinstance(b, sx.Array) else core.rv(float(b))
+                    ctx.prove(ta == tb, "c13/history/series", detail={"series": name, "entry": t})
+            if ctx.prove(len(h2.sample_history) == K, "c13/history/populations", detail={"loaded": len(h2.sample_history), "saved": K}):
+                for t in range(K):
+                    compare_samples(ctx, pops[t], h2.sample_history[t], None, "c13/history/populations", {"population": t})
+            else:
+                ctx.reach("c13/history/populations")
+
+        return h
+
+    # ------------------------------------------------------------------
     def h_config(self, cfg):
         d = cfg["d"]
 
@@ -228,7 +324,7 @@ class C13(Check):
             lo, hi = sx.sym("lo", d), sx.sym("hi", d)
             for a_, b_ in zip(sx.terms(lo), sx.terms(hi)):
                 ctx.add_assume(a_ < b_)
-            params = [f"p{k}" for k in range(d)]
+            params = PARAMS[:d]
             fns = UserFns(d)
             flow = FlowStub(ctx, d, fns, tag="c13")
             f = h5model.new_file()
@@ -239,7 +335,7 @@ class C13(Check):
                 settings = dict(
                     dims=d,
                     parameters=params,
-                    periodic_parameters=["p1"] if cfg["periodic"] else None,
+                    periodic_parameters=[PARAMS[1]] if cfg["periodic"] else None,
                     prior_bounds={p: [lo[k], hi[k]] for k, p in enumerate(params)},
                     bounded_to_unbounded=False,
                     bounded_transform="probit",
@@ -282,6 +378,79 @@ class C13(Check):
 
     def replay(self, cex):
         return replay_c13(cex)
+
+
+import contextlib
+
+
+@contextlib.contextmanager
+def numpy_is_identity():
+    """Stub for the sample classes' save path, which converts to NumPy first: the
+    conversion is value-preserving (C15's matter), so here it is the identity on
+    symbolic arrays -- `array_api_compat.numpy` (imported inside BaseSamples.to_numpy)
+    and samples.to_numpy are redirected for the duration of the round trip."""
+    import array_api_compat
+
+    import aspire.samples as S
+
+    real_np, real_to_numpy = array_api_compat.numpy, S.to_numpy
+    array_api_compat.numpy = sx
+    S.to_numpy = lambda x, **k: x if isinstance(x, sx.Array) else real_to_numpy(x, **k)
+    try:
+        yield
+    finally:
+        array_api_compat.numpy = real_np
+        S.to_numpy = real_to_numpy
+
+
+def make_samples(S, cls_name, sub, N, d, xp, rs=None):
+    """A sample set of the given class with every cell distinct (symbolic, or random
+    concrete for the replay); returns (object, planted evidence or None)."""
+    sym = rs is None
+    mk = (lambda name, shape: sx.sym(name, shape)) if sym else (lambda name, shape: rs.normal(size=shape))
+    kw = {
+        "log_likelihood": mk("ll", N) if sub in ("all", "ll") else None,
+        "log_prior": mk("lp", N) if sub == "all" else None,
+        "log_q": mk("lq", N) if sub == "all" else None,
+    }
+    if cls_name == "SMCSamples":
+        kw["beta"] = 0.25
+    s = getattr(S, cls_name)(x=mk("x", (N, d)), parameters=PARAMS[:d], xp=xp, dtype="float32", **kw)
+    ev = None
+    if cls_name == "SMCSamples" or (cls_name == "Samples" and sub != "all"):
+        if sym:
+            s.log_evidence, s.log_evidence_error = sx.sym("carriedZ"), sx.sym("carriedE")
+            ev = (z3.Real("carriedZ"), z3.Real("carriedE"))
+        else:
+            s.log_evidence, s.log_evidence_error = np.float32(12.5), np.float32(0.75)
+            ev = (12.5, 0.75)
+    return s, ev
+
+
+def compare_samples(ctx, s, s2, ev, label, detail=None):
+    detail = detail or {}
+    ctx.prove(type(s2) is type(s), label, detail={**detail, "what": "class", "loaded": type(s2).__name__})
+    ctx.prove(s2.parameters == s.parameters, label, detail={**detail, "what": "parameters", "loaded": s2.parameters})
+    ctx.prove(s2.xp is s.xp, label, detail={**detail, "what": "namespace"})
+    ctx.prove(s2.dtype == s.dtype and s2.x.dtype == s.x.dtype, label, detail={**detail, "what": "dtype", "loaded": repr(s2.dtype)})
+    if ctx.prove(tuple(s2.x.shape) == tuple(s.x.shape), label, detail={**detail, "what": "shape", "loaded": list(s2.x.shape)}):
+        _terms_equal(ctx, s.x, s2.x, label, {**detail, "field": "x"})
+    for f in ("log_likelihood", "log_prior", "log_q"):
+        a, b = getattr(s, f), getattr(s2, f)
+        if a is None:
+            ctx.prove(b is None, label, detail={**detail, "field": f, "expected": "absent"})
+        elif ctx.prove(b is not None, label, detail={**detail, "field": f, "expected": "present"}):
+            _terms_equal(ctx, a, b, label, {**detail, "field": f})
+    if hasattr(s, "beta"):
+        b2 = getattr(s2, "beta", None)
+        ctx.prove(b2 is not None and bool(float(b2) == float(s.beta)), label, detail={**detail, "what": "beta", "loaded": repr(b2)})
+    if ev is not None:
+        z, e = s2.log_evidence, s2.log_evidence_error
+        if ctx.prove(z is not None and e is not None, label, detail={**detail, "what": "evidence present"}):
+            ctx.prove(z3.And(sx.term(sx.asarray(z)) == ev[0], sx.term(sx.asarray(e)) == ev[1]), label, detail={**detail, "what": "evidence value"})
+    elif type(s).__name__ == "Samples" and getattr(s, "log_w", None) is not None:
+        _terms_equal(ctx, s.log_w, s2.log_w, label, {**detail, "field": "log_w"})
+        ctx.prove(sx.term(sx.asarray(s2.log_evidence)) == sx.term(sx.asarray(s.log_evidence)), label, detail={**detail, "what": "evidence of the weights"})
 
 
 def _ll(s):
@@ -343,7 +512,9 @@ def replay_c13(cex):
     with np.errstate(all="ignore"), h5py.File("c13-replay.h5", "w", driver="core", backing_store=False) as f:
         if cfg["kind"] == "config":
             return _replay_config(cfg, lo, hi, f)
-        params = [f"p{k}" for k in range(d)]
+        if cfg["kind"] in ("samples", "history"):
+            return _replay_samples(cfg, f, rs)
+        params = PARAMS[:d]
         if cfg["kind"] == "affine":
             tr = T.AffineTransform(xp=np, dtype="float32")
             tr.fit(rs.normal(size=(8, d)) * 3 + 1)
@@ -351,7 +522,7 @@ def replay_c13(cex):
             kw = dict(parameters=params, prior_bounds={p: [lo[k], hi[k]] for k, p in enumerate(params)}, bounded_to_unbounded=cfg["bounded"] is not None,
                       bounded_transform=cfg["bounded"] or "logit", xp=np, eps=EPS13, dtype="float32")
             if cfg["cls"] == "CompositeTransform":
-                kw.update(periodic_parameters=["p0"] if cfg["periodic"] else [], affine_transform=cfg["affine"])
+                kw.update(periodic_parameters=[PARAMS[0]] if cfg["periodic"] else [], affine_transform=cfg["affine"])
             tr = getattr(T, cfg["cls"])(**kw)
             data = (lo + (hi - lo) * rs.uniform(0.2, 0.8, size=(8, d))).astype(np.float32)
             tr.fit(data)
@@ -394,12 +565,74 @@ def replay_c13(cex):
     return (len(bad) > 0, "C13: " + "; ".join(bad[:3]) if bad else "the reloaded object equals the saved one on this input")
 
 
+def _np_same(s, s2, what, bad):
+    if type(s2) is not type(s):
+        bad.append(f"{what}: reloaded as {type(s2).__name__}")
+        return
+    if s2.parameters != s.parameters:
+        bad.append(f"{what}: parameters {s2.parameters} instead of {s.parameters}")
+    if np.dtype(s2.dtype) != np.dtype(s.dtype) or np.asarray(s2.x).dtype != np.asarray(s.x).dtype:
+        bad.append(f"{what}: precision {s2.dtype} / {np.asarray(s2.x).dtype} instead of {s.dtype}")
+    if _xp_name(s2.xp) != _xp_name(s.xp):
+        bad.append(f"{what}: namespace {s2.xp!r}")
+    for f_ in ("x", "log_likelihood", "log_prior", "log_q"):
+        a, b = getattr(s, f_), getattr(s2, f_)
+        if (a is None) != (b is None):
+            bad.append(f"{what}: field {f_} {'appeared' if a is None else 'was dropped'}")
+        elif a is not None and (np.asarray(a).shape != np.asarray(b).shape or not np.array_equal(np.asarray(a), np.asarray(b))):
+            bad.append(f"{what}: values of {f_} changed")
+    if hasattr(s, "beta") and (getattr(s2, "beta", None) is None or float(s2.beta) != float(s.beta)):
+        bad.append(f"{what}: temperature {getattr(s2, 'beta', None)!r} instead of {s.beta!r}")
+    if getattr(s, "log_evidence", None) is not None:
+        if getattr(s2, "log_evidence", None) is None or abs(float(s2.log_evidence) - float(s.log_evidence)) > 1e-5 * max(1.0, abs(float(s.log_evidence))):
+            bad.append(f"{what}: evidence {getattr(s2, 'log_evidence', None)!r} instead of {s.log_evidence!r}")
+
+
+def _replay_samples(cfg, f, rs):
+    import aspire.history as Hm
+    import aspire.samples as S
+
+    bad = []
+    if cfg["kind"] == "samples":
+        s, _ = make_samples(S, cfg["cls"], cfg["subset"], cfg["N"], cfg["d"], np, rs=rs)
+        try:
+            s.save(f, "samples", flat=cfg["flat"])
+            s2 = getattr(S, cfg["cls"]).load(f, "samples")
+        except Exception as e:  # noqa: BLE001
+            return True, f"C13: save/load of {cfg['cls']} raised {type(e).__name__}: {e}"
+        _np_same(s, s2, cfg["cls"], bad)
+    else:
+        K, N, d = cfg["K"], cfg["N"], cfg["d"]
+        hist = Hm.SMCHistory()
+        series = ("log_norm_ratio", "log_norm_ratio_var", "beta", "ess", "ess_target", "eff_target", "mcmc_acceptance")
+        n_it = max(K - 1, 2)
+        for name in series:
+            setattr(hist, name, [float(v) for v in rs.normal(size=n_it)] if name != "beta" else [(t + 1) / n_it for t in range(n_it)])
+        pops = [S.SMCSamples(x=rs.normal(size=(N, d)), log_likelihood=rs.normal(size=N), log_prior=rs.normal(size=N), log_q=rs.normal(size=N), parameters=PARAMS[:d], beta=t / max(K - 1, 1), dtype="float32") for t in range(K)]
+        hist.sample_history = list(pops)
+        try:
+            hist.save(f, "smc_history")
+            h2 = Hm.SMCHistory.load(f, "smc_history")
+        except Exception as e:  # noqa: BLE001
+            return True, f"C13: save/load of an SMC history with {K} populations raised {type(e).__name__}: {e}"
+        for name in series:
+            a, b = getattr(hist, name), getattr(h2, name, None)
+            if b is None or len(a) != len(b) or not np.array_equal(np.asarray(a, float), np.asarray(b, float)):
+                bad.append(f"history series {name} changed: {list(np.asarray(b).tolist()) if b is not None else None} instead of {a}")
+        if len(h2.sample_history) != K:
+            bad.append(f"{len(h2.sample_history)} stored populations reloaded, {K} saved")
+        else:
+            for t in range(K):
+                _np_same(pops[t], h2.sample_history[t], f"population {t} of {K}", bad)
+    return (len(bad) > 0, "C13: " + "; ".join(bad[:3]) if bad else "the reloaded object equals the saved one on this input")
+
+
 def _replay_config(cfg, lo, hi, f):
     import aspire.aspire as A
     from aspire.aspire import Aspire
 
     d = cfg["d"]
-    params = [f"p{k}" for k in range(d)]
+    params = PARAMS[:d]
     bad = []
 
     class Flow:
@@ -429,7 +662,7 @@ def _replay_config(cfg, lo, hi, f):
     A.AspireFile = lambda path, mode="r": _F(f)
     A.get_flow_wrapper = lambda backend="zuko", flow_matching=False: (Flow, np)
     try:
-        a = Aspire(log_likelihood=_ll, log_prior=_lp, flow=Flow(), dims=d, parameters=params, periodic_parameters=["p1"] if cfg["periodic"] else None,
+        a = Aspire(log_likelihood=_ll, log_prior=_lp, flow=Flow(), dims=d, parameters=params, periodic_parameters=[PARAMS[1]] if cfg["periodic"] else None,
                    prior_bounds={p: [float(lo[k]), float(hi[k])] for k, p in enumerate(params)}, bounded_to_unbounded=False, bounded_transform="probit",
                    flow_backend="flowjax", eps=EPS13, xp=np, dtype="float32", **dict(cfg.get("flow_kwargs") or {}))
         try:
